@@ -108,3 +108,81 @@ Proof. exact ex_cache_ok_needed. Qed.
 Theorem C05_dh_key_length_bounded : forall data k, FFCDHKey_unpack data = Ok k -> 8 + 3 * ffk_key_length k <= len data.
 Proof. exact FFCDHKey_length_bounded. Qed.
 Print Assumptions C05_dh_key_length_bounded.
+
+(* ---- flows: the regenerated syntax of the CMS decoders and of get_target_sd (gen/F_asn1.v, part "cms"), run by
+   Prelude/PyAstMut.v in the world Flow/World_cms.v, computes the model functions unprotect_offline is composed of
+   (Proofs/Flow_cms_unpack.v, Flow_cms_sd.v, Flow_cms_c05.v). `value_of` = the returned value. *)
+From V Require Import Prelude.PyAst.
+From V Require Import Prelude.PyWorld Prelude.PyAstMut gen.F_asn1 Model.Asn1 Model.Pkcs7 Model.SecDesc Flow.World_cms.
+From V Require Import Proofs.Flow_cms_unpack Proofs.Flow_cms_sd Proofs.Flow_cms_c05.
+
+Theorem C05_flow_AlgorithmIdentifier_unpack : forall fuel cls view,
+  value_of (run_mut MW fuel k_flow_AlgorithmIdentifier_unpack [cls; VO (OReader view)])
+  = (let* (a, _) := AlgorithmIdentifier_unpack view in Ok (VO (OAlg a))).
+Proof. exact flow_AlgorithmIdentifier_unpack. Qed.
+Print Assumptions C05_flow_AlgorithmIdentifier_unpack.
+Theorem C05_flow_OtherKeyAttribute_unpack : forall fuel cls view h,
+  value_of (run_mut MW fuel k_flow_OtherKeyAttribute_unpack [cls; VO (OReader view); vopt_hdr h])
+  = (let* (a, _) := OtherKeyAttribute_unpack view h in Ok (VO (OOka a))).
+Proof. exact flow_OtherKeyAttribute_unpack. Qed.
+Print Assumptions C05_flow_OtherKeyAttribute_unpack.
+Theorem C05_flow_ContentInfo_unpack : forall fuel cls data h,
+  value_of (run_mut MW fuel k_flow_ContentInfo_unpack [cls; VB data; vopt_hdr h])
+  = (let* c := ContentInfo_unpack data h in Ok (VO (OCi c))).
+Proof. exact flow_ContentInfo_unpack. Qed.
+Print Assumptions C05_flow_ContentInfo_unpack.
+Theorem C05_flow_KEKIdentifier_unpack : forall fuel cls view,
+  value_of (run_mut MW fuel k_flow_KEKIdentifier_unpack [cls; VO (OReader view)])
+  = (let* (k, _) := KEKIdentifier_unpack view in Ok (VO (OKekId k))).
+Proof. exact flow_KEKIdentifier_unpack. Qed.
+Print Assumptions C05_flow_KEKIdentifier_unpack.
+Theorem C05_flow_RecipientInfo_unpack : forall fuel cls view,
+  value_of (run_mut MW fuel k_flow_RecipientInfo_unpack [cls; VO (OReader view)])
+  = (let* (k, _) := RecipientInfo_unpack view in Ok (VO (OKri k))).
+Proof. exact flow_RecipientInfo_unpack. Qed.
+Print Assumptions C05_flow_RecipientInfo_unpack.
+Theorem C05_flow_EncryptedContentInfo_unpack : forall fuel cls view,
+  value_of (run_mut MW fuel k_flow_EncryptedContentInfo_unpack [cls; VO (OReader view)])
+  = (let* (k, _) := EncryptedContentInfo_unpack view in Ok (VO (OEci k))).
+Proof. exact flow_EncryptedContentInfo_unpack. Qed.
+Print Assumptions C05_flow_EncryptedContentInfo_unpack.
+Theorem C05_flow_KEKRecipientInfo_unpack : forall fuel cls view h,
+  value_of (run_mut MW fuel k_flow_KEKRecipientInfo_unpack [cls; VO (OReader view); vopt_hdr h])
+  = (let* (k, _) := KEKRecipientInfo_unpack view h in Ok (VO (OKri k))).
+Proof. exact flow_KEKRecipientInfo_unpack. Qed.
+Print Assumptions C05_flow_KEKRecipientInfo_unpack.
+(* `while recipient_infos_reader:` -- the interpreter's fuel exceeds the number of octets, and the model does not exhaust its own
+   fuel (length of the SET OF content; it never does on Python bytes, see C05_flow_EnvelopedData_unpack_bytes) *)
+Theorem C05_flow_EnvelopedData_unpack : forall fuel cls data,
+  (List.length data < fuel)%nat -> EnvelopedData_unpack data <> Raise OutOfFuel ->
+  value_of (run_mut MW fuel k_flow_EnvelopedData_unpack [cls; VB data])
+  = (let* e := EnvelopedData_unpack data in Ok (VO (OEd e))).
+Proof. exact flow_EnvelopedData_unpack. Qed.
+Print Assumptions C05_flow_EnvelopedData_unpack.
+Theorem C05_flow_ProtectionDescriptor_unpack : forall fuel cls data,
+  value_of (run_mut MW fuel k_flow_ProtectionDescriptor_unpack [cls; VB data])
+  = (let* s := ProtectionDescriptor_unpack data in Ok (VO (OSidDesc s))).
+Proof. exact flow_ProtectionDescriptor_unpack. Qed.
+Print Assumptions C05_flow_ProtectionDescriptor_unpack.
+Theorem C05_flow_DPAPINGBlob_unpack : forall fuel cls data,
+  value_of (run_mut MW fuel k_flow_DPAPINGBlob_unpack [cls; VB data])
+  = (let* b := blob_unpack data in Ok (VO (OBlob b))).
+Proof. exact flow_DPAPINGBlob_unpack. Qed.
+Print Assumptions C05_flow_DPAPINGBlob_unpack.
+
+(* on Python bytes the fuel hypothesis on the model is discharged (Proofs/C05Asn1.EnvelopedData_unpack_safe) *)
+Theorem C05_flow_EnvelopedData_unpack_bytes : forall fuel cls data,
+  wfb data = true -> (List.length data < fuel)%nat ->
+  value_of (run_mut MW fuel k_flow_EnvelopedData_unpack [cls; VB data])
+  = (let* e := EnvelopedData_unpack data in Ok (VO (OEd e))).
+Proof. exact flow_EnvelopedData_unpack_bytes. Qed.
+Print Assumptions C05_flow_EnvelopedData_unpack_bytes.
+Theorem C05_flow_ProtectionDescriptor_get_target_sd : forall fuel self,
+  run_mut MW fuel k_flow_ProtectionDescriptor_get_target_sd [self] = Raise NotImplementedError.
+Proof. exact flow_ProtectionDescriptor_get_target_sd. Qed.
+Print Assumptions C05_flow_ProtectionDescriptor_get_target_sd.
+Theorem C05_flow_SIDDescriptor_get_target_sd : forall fuel sid,
+  run_mut MW fuel k_flow_SIDDescriptor_get_target_sd [VO (OSidDesc sid)]
+  = (let* b := SecDesc.get_target_sd sid in Ok (VB b, [VO (OSidDesc sid)])).
+Proof. exact flow_SIDDescriptor_get_target_sd. Qed.
+Print Assumptions C05_flow_SIDDescriptor_get_target_sd.
